@@ -12,23 +12,13 @@ BASE_NOTE = (
     "Modelled, not verified: CPython, sqlite, git, tar, shutil, bash, the kernel. "
 )
 
-CLAIMED = {
-    "C20": {
-        "text": "Proof. Theorems C20_name, C20_ident, C20_roundtrip, C20_parse_print_parse, C20_relative(_dep), C20_outdir_inj, "
-        "C20_outdir_not_nested about Model/Ident.v, for all strings / identifiers / versions. The three patterns are regenerated "
-        "from task_identifier.py on every run (CPython's own regex parser) and proved language-equal to the documented grammar by a "
-        "verified bisimulation checker, with the anchoring proved exact; the rest of the model (group extraction, printing, output "
-        "paths) is tied by exhaustive correspondence over all strings on nine symbol classes up to length 5 (quick) / 7 (thorough).",
-        "note": "Group extraction, str.split/pathlib handling and the output-path composition are hand-modelled and tied by the exhaustive "
-        "correspondence only (bounded length); decimal rendering of versions uses Coq's N.to_uint.",
-        "technique": "Coq proof (regex derivatives + verified bisimulation certificate over regenerated patterns) + exhaustive model/implementation correspondence",
-        "design_ref": "5/C20",
-    },
-}
+# one fragment per claimed property: harness/manifest/Cxx.json with keys text, note, technique, design_ref
+CLAIMED = {}
+for _fn in sorted(os.listdir(os.path.join(VERIF, "harness", "manifest"))):
+    if _fn.endswith(".json"):
+        CLAIMED[_fn[:-5]] = json.load(open(os.path.join(VERIF, "harness", "manifest", _fn), encoding="utf-8"))
 
-NOT_YET = {
-    # filled as checks are built; every property of properties.jsonl is either in CLAIMED or here
-}
+NOT_YET = {}
 
 ALL = ["C%02d" % i for i in range(1, 21)]
 
